@@ -24,7 +24,7 @@ def partition(rng, total, unit, n):
 def gen(seed, index):
     rng = rng_for(PID, seed, index)
     unit = rng.choice([2500000000, 5000000000, 10000000000, 3333333333])
-    G1 = g1.G(rng, unit=unit, max_depth=rng.choice([1, 2, 2, 3]))
+    G1 = g1.G(rng, unit=unit, max_depth=rng.choice([1, 2, 2, 3]), tempi=True)      # nodes may carry a tempo of their own
     trees = []
     first = G1.tree(kind=rng.choice(["S", "S", "P"]))
     D = max(g1.dur(first), unit)
@@ -42,6 +42,9 @@ def gen(seed, index):
         if rng.random() < 0.05:
             # finding F13: a curve shape that is not 0 but tiny
             rng.choice(tempo[1:])[2] = g.hexf(rng.choice([1e-8, 1e-9, -1e-9, 1e-7]))
+    if rng.random() < 0.12:
+        from props import C02 as _c2
+        _c2.share_leaves(rng, first)          # one leaf object at several positions (the conversion works on a destructive copy)
     trees.append(first)
     for _ in range(rng.choice([0, 1, 1, 2, 3, 4])):
         r = rng.random()
